@@ -42,8 +42,14 @@ class Disposables:
                 return (single,)
 
             case multiple:
-                # consume it here - producing the state is a part of initializing
-                return tuple(multiple)
+                try:
+                    # consume it here - producing the state is a part of initializing
+                    return tuple(multiple)
+
+                except BaseException as exc:
+                    # it was entered already - it has to be exited before failing
+                    await disposable.__aexit__(type(exc), exc, exc.__traceback__)
+                    raise
 
     async def _dispose(
         self,
